@@ -1149,6 +1149,7 @@ static void c09_end(Run &run) {
       const CallRec &cr = W.calls[(size_t)e.idx];
       int si = -1; bool udp = false;
       for (size_t k = W.txs.size(); k-- > 0;) { const Tx &p = W.txs[k]; if (p.fd == cr.fd && p.seq < cr.seq) { si = p.server; udp = !p.tcp; break; } }
+      if (getenv("SIM_DBG_C09")) fprintf(stderr, "C09 seq=%u t=%lld recv error %d on fd %d -> server %d udp=%d\n", cr.seq, (long long)cr.t, cr.err, cr.fd, si, (int)udp);
       if (si >= 0 && udp && std::find(active.begin(), active.end(), si) != active.end() && cr.seq > edit_end) { uncounted[(size_t)si] = 1; run.note("receive_error_with_server_known"); }
       continue;
     }
@@ -1185,6 +1186,7 @@ static void c09_end(Run &run) {
         if (p.token != t.token || p.msg.id != t.msg.id || p.qname_lc != t.qname_lc || p.msg.qd.empty() || p.msg.qd[0].type != t.msg.qd[0].type) continue;
         if (!p.msg.opt()) first_noopt = false;
         else if (p.server == t.server && (p.behaviour == B_FORMERR_NOOPT || p.behaviour == B_FORMERR_OPT)) formerr_from_here = true;
+        else if (p.server == t.server) { for (int rid : p.resp_ids) if (W.resps[(size_t)rid].rcode == 1 && !W.resps[(size_t)rid].read_seqs.empty() && W.resps[(size_t)rid].read_seqs[0] < t.seq) formerr_from_here = true; }   // (a mangled answer can happen to read as FORMERR)
       }
       directed = first_noopt && formerr_from_here;
     }
